@@ -445,6 +445,10 @@ Definition hyp_c17 (p : tg_pair) : bool :=
 Definition prop_same_tokens (p : tg_pair) : bool :=
   if String.eqb (tp_kind p) "same" then
     obs_tokens_eqb (tg_gen (tp_a p)) (tg_gen (tp_b p))
+  else if String.eqb (tp_kind p) "dedup-same" then
+    (* two independent de-duplication runs of one registry: same registry, same tokens *)
+    list_eqb path_eqb (map (fun e => t_path (snd e)) (tg_reg (tp_a p))) (map (fun e => t_path (snd e)) (tg_reg (tp_b p))) &&
+    obs_tokens_eqb (tg_gen (tp_a p)) (tg_gen (tp_b p))
   else if negb (hyp_c17 p) then true
   else if String.eqb (tp_kind p) "renumbered" then
     obs_tokens_eqb (tg_gen (tp_a p)) (tg_gen (tp_b p))
@@ -639,3 +643,30 @@ Definition switches_case (c : tg_case) : bool :=
   end.
 
 Definition prop_switches (p : tg_pair) : bool := switches_case (tp_a p) && switches_case (tp_b p).
+
+(** finding F18: [types_equal] is INCOMPLETE on coincidences: two instantiations whose argument
+    coincides with the concrete type of another field on BOTH sides (Baz<bool, X> and Baz<bool, Y>
+    with a field  y: bool ) are judged different (compare_fields: both ids are parameters, the
+    recorded type names are concrete, so no index is found), although their skeletons agree;
+    whether generation fails with DuplicateTypePath then depends on which member comes first *)
+Definition te_incomplete_case (c : tg_case) : bool :=
+  let r := tg_reg c in
+  let s := settings_of (tg_spec c) in
+  existsb (fun ix : N * (N * ty) =>
+             item_eligible s (snd (snd ix)) &&
+             existsb (fun iy : N * (N * ty) =>
+                        item_eligible s (snd (snd iy)) &&
+                        path_eqb (t_path (snd (snd ix))) (t_path (snd (snd iy))) &&
+                        negb (N.eqb (fst ix) (fst iy)) &&
+                        match types_equal_res r (fst ix) (fst iy),
+                              skeleton_tokens r s (snd (snd ix)), skeleton_tokens r s (snd (snd iy)) with
+                        | Ok false, Some a, Some b => tokens_eqb a b
+                        | _, _, _ => false
+                        end) (combine (ids_of r) r)) (combine (ids_of r) r).
+
+Definition known_F18 (p : tg_pair) : bool :=
+  (te_incomplete_case (tp_a p) || te_incomplete_case (tp_b p)) &&
+  match tg_gen (tp_a p), tg_gen (tp_b p) with
+  | OOk _, OErr k _ _ | OErr k _ _, OOk _ => String.eqb k "DuplicateTypePath"
+  | _, _ => false
+  end.
